@@ -134,7 +134,7 @@ def run(cases, tag, seed, max_flops=400000, per_kernel_inputs=2):
             path = os.path.join(common.GEN, f"{tag}_{n}.v")
             txt = HEADER + "Definition k : list stmt :=\n" + ffx.coq_body(kd["body"]) + ".\n"
             for j, d in enumerate(ins):
-                txt += (f"Definition inp{j} := inputs_of_lists {lits(d['w'])} {lits(d['c'])} {lits(d['x'])} "
+                txt += (f"Definition inp{j} := @inputs_of_lists float {lits(d['w'])} {lits(d['c'])} {lits(d['x'])} "
                         f"{zl(d['e'][:con['ne']])} {zl(d['p'][:con['np']])}.\n")
                 txt += f"Definition A0_{j} : list f_val := {lits(d['A'])}.\n"
                 txt += f"Eval vm_compute in option_map floats_of (f_run inp{j} k A0_{j}).\n"
